@@ -28,6 +28,10 @@ class SendMessageC14(SendMessageSetup):
     def name(self, clause):
         return f"C14.send_message.{clause}[{self.cfg()}]"
 
+    def setup(self, I):
+        self.t_entry = I.st.now
+        return super().setup(I)
+
     # ---- helpers over the (concrete-length) sequence of attempted sends
     def attempted_list(self, I):
         a = self.attempted(I)
@@ -55,13 +59,12 @@ class SendMessageC14(SendMessageSetup):
             calls = Val.items(E.gfield(I, self.cb, "calls"))
             exp = Val.items(E.gfield(I, self.cb, "expected"))
             cl.append((f"{name}.callback_calls_equal_matching_progress_notifications", calls == exp))
-        # the outer deadline bounds the clock
-        outer = I.st.scopes[0] if I.st.scopes else None
-        if outer is not None and outer.get("deadline") is not None:
-            if phase == "entry":
-                I.ghost["deadline"] = outer["deadline"]
-                I.ghost["t_wait_start"] = outer["deadline"] - outer["delay"]
-            cl.append((f"{name}.clock_within_outer_deadline", I.st.now <= I.ghost["deadline"]))
+        # the deadline of the CALL bounds the clock - taken from the property (entry time + timeout), not from whatever
+        # mechanism the code uses to enforce it (sends before the wait take no virtual time: listed assumption)
+        if phase == "entry":
+            I.ghost["deadline"] = self.t_entry + self.timeout
+            I.ghost["t_wait_start"] = self.t_entry
+        cl.append((f"{name}.clock_within_the_calls_deadline", I.st.now <= I.ghost["deadline"]))
         if self.token is not None:
             sent = I.frames[0].vars.get("cancellation_sent")
             if sent is not None:
@@ -102,10 +105,8 @@ class SendMessageC14(SendMessageSetup):
             if self.token is not None:
                 I.oblige(self.name("request_cancelled_before_sending_is_never_sent"),
                          z3.Implies(self.cancelled0, nreq == 0))
-        dl = I.ghost.get("deadline")
-        if dl is not None:
-            I.oblige(self.name("ends_no_later_than_its_timeout"),
-                     z3.And(I.st.now <= dl, dl == I.ghost["t_wait_start"] + self.timeout))
+        I.oblige(self.name("ends_no_later_than_its_timeout"), I.st.now <= self.t_entry + self.timeout,
+                 watch={"now": V.VReal(I.st.now), "entered_at": V.VReal(self.t_entry), "timeout": V.VReal(self.timeout)})
 
     def post(self, I, result):
         self.common(I, "return")
